@@ -241,7 +241,10 @@ func refEntityChoice(produces []string, accept string, maxParams int) (def bool,
 // cfg 1: two POST routes on one path, told apart by Consumes: a/J -> produces [a/J], a/x -> produces [a/x, a/J]
 // cfg 2: as 0 with the built-in media types and a header made of their names
 // cfg 3: as 0 with a first Produces entry that has no registered writer
+// cfg + 10: the earlier request carries only the first range of the Accept header, cfg + 20: only the second.
 func H_C05_seq(cfg, capN int) {
+	fa := cfg / 10
+	cfg = cfg % 10
 	vRegister(cfg == 2)
 	J, X := "a/J", "a/x"
 	if cfg == 2 {
@@ -287,20 +290,28 @@ func H_C05_seq(cfg, capN int) {
 		}))
 	}
 	c.Add(ws)
-	mk := func(i int) vReq {
+	mk := func(i int, acc string) vReq {
 		if cfg == 1 {
-			return vReq{method: "POST", path: "/t/c", ctype: []string{J, X}[i], accept: accept}
+			return vReq{method: "POST", path: "/t/c", ctype: []string{J, X}[i], accept: acc}
 		}
-		return vReq{method: "GET", path: []string{"/t/a", "/t/b"}[i], accept: accept}
+		return vReq{method: "GET", path: []string{"/t/a", "/t/b"}[i], accept: acc}
 	}
 	first := nondetChoice("first", 2)
 	second := nondetChoice("second", 2)
+	// the earlier request carries the same Accept header, or only its first range, or only its second one (a memo
+	// keyed or filled by one header must not answer for another)
+	accept1 := accept
+	if fa == 1 {
+		accept1 = r0
+	} else if fa == 2 {
+		accept1 = r1
+	}
 	rec1 := vNewRec()
-	c.Dispatch(rec1, mk(first).http())
+	c.Dispatch(rec1, mk(first, accept1).http())
 	ran = -1
 	rec := vNewRec()
-	c.Dispatch(rec, mk(second).http())
-	if first == second {
+	c.Dispatch(rec, mk(second, accept).http())
+	if first == second && fa == 0 {
 		verifCover("repeated")
 		verifAssert(rec1.code() == rec.code() && vHdr1(rec1, "Content-Type") == vHdr1(rec, "Content-Type"), "C05: the same request does not always get the same representation")
 	}
